@@ -286,7 +286,7 @@ func worker() *isolate.Worker {
 // ---- input construction
 
 type Mutation struct {
-	Kind  int    // 0 set field, 1 truncate, 2 duplicate record, 3 delete record, 4 unknown compression, 5 nest chunk, 6 overwrite bytes
+	Kind  int    // 0 set field, 1 truncate, 2 duplicate record, 3 delete record, 4 unknown compression, 5 nest chunk, 6 overwrite bytes, 7 transplant a field value from another record
 	Pick  uint32 // which field / record / offset (reduced modulo what exists)
 	Pick2 uint32
 	Val   int // index into the hostile value table
@@ -459,6 +459,27 @@ func buildInput(c *C10Case) ([]byte, []string, error) {
 			rec = append(rec, body...)
 			file = append(append(append([]byte{}, file[:r.Offset]...), rec...), file[r.End():]...)
 			notes = append(notes, fmt.Sprintf("nest-chunk@%d", r.Offset))
+		case 7:
+			// transplant: a field takes the value the same field has in another record
+			fs := specdec.Fields(d)
+			if len(fs) == 0 {
+				continue
+			}
+			f := fs[int(m.Pick)%len(fs)]
+			var donors []specdec.Field
+			for _, g := range fs {
+				if g.Op == f.Op && g.Name == f.Name && g.Width == f.Width && g.Off != f.Off {
+					donors = append(donors, g)
+				}
+			}
+			if len(donors) == 0 {
+				continue
+			}
+			g := donors[int(m.Pick2)%len(donors)]
+			old := getUint(file[f.Off:], f.Width)
+			v := getUint(file[g.Off:], g.Width)
+			putUint(file[f.Off:], f.Width, v)
+			notes = append(notes, fmt.Sprintf("transplant %s.%s(%s,inchunk=%v)@%d %d->%d (value of the record at %d)", opName(f.Op), f.Name, f.Kind, f.InChunk, f.Off, old, v, g.Off))
 		default:
 			if len(file) == 0 {
 				continue
@@ -506,7 +527,7 @@ func genC10(t *rapid.T) C10Case {
 		}
 		n := rapid.IntRange(1, 3).Draw(t, "n-mut")
 		for i := 0; i < n; i++ {
-			c.Muts = append(c.Muts, Mutation{Kind: rapid.SampledFrom([]int{0, 0, 0, 0, 0, 0, 1, 2, 3, 4, 5, 6}).Draw(t, "m-kind"), Pick: rapid.Uint32().Draw(t, "m-pick"),
+			c.Muts = append(c.Muts, Mutation{Kind: rapid.SampledFrom([]int{0, 0, 0, 0, 0, 0, 1, 2, 3, 4, 5, 6, 7, 7}).Draw(t, "m-kind"), Pick: rapid.Uint32().Draw(t, "m-pick"),
 				Pick2: rapid.Uint32().Draw(t, "m-pick2"), Val: rapid.IntRange(0, nHostile-1).Draw(t, "m-val"), Seed: rapid.Uint64().Draw(t, "m-seed")})
 		}
 	}
@@ -594,7 +615,7 @@ func entryLabel(c *C10Case) string {
 func judgeHostile(prop string, label string, o isolate.Outcome, ceiling uint64) error {
 	switch {
 	case o.Hang:
-		return pk.Failf("hang", "%s did not finish within the deadline, also when re-run alone with a 60 s deadline", label)
+		return pk.Failf("hang", "%s did not finish within the deadline, also when re-run alone in a fresh worker with a 600 s deadline", label)
 	case o.Died:
 		return pk.Failf("process-death", "%s killed the process: %s", label, o.ExitInfo)
 	case o.Status == 1:
@@ -614,7 +635,7 @@ func checkC10(c C10Case, st *stats.Collector) error {
 	if c.Entry == entryParse {
 		req.Input = pickParseBody(input, c.Aux, c.ParseRec)
 	}
-	o := worker().Call(req, 10*time.Second, 60*time.Second)
+	o := worker().Call(req, 10*time.Second, 600*time.Second)
 	label := fmt.Sprintf("%s on a %d-byte input (%s)", entryLabel(&c), len(req.Input), strings.Join(notes, ", "))
 	if err := judgeHostile("C10", label, o, allocCeiling(&c, input)); err != nil {
 		return err
@@ -734,12 +755,9 @@ func sweepValue(idx int, old uint64, width int, fileLen uint64, recOffsets []uin
 func enumC10Sweep(yield func(C10Sweep) bool) {
 	sh, n := shardInfo()
 	bases := sweepBases()
-	sel := []int{int(seedInt()) % len(bases)}
-	if pk.Thorough() {
-		sel = nil
-		for i := range bases {
-			sel = append(sel, i)
-		}
+	var sel []int // all base files in both tiers; the quick tier thins the entry configurations instead
+	for i := range bases {
+		sel = append(sel, i)
 	}
 	k := 0
 	for _, bi := range sel {
@@ -749,7 +767,7 @@ func enumC10Sweep(yield func(C10Sweep) bool) {
 		}
 		nf := len(specdec.Fields(d))
 		for f := 0; f < nf; f++ {
-			for v := 0; v < nHostile; v++ {
+			for v := 0; v < nHostile+3; v++ { // the last three: values transplanted from the same field of other records
 				k++
 				if k%n != sh {
 					continue
@@ -783,20 +801,42 @@ func checkC10Sweep(c C10Sweep, st *stats.Collector) error {
 	}
 	input := append([]byte{}, b.file...)
 	old := getUint(input[f.Off:], f.Width)
-	v, ok := sweepValue(c.Val, old, f.Width, uint64(len(input)), recOffsets)
+	var v uint64
+	ok := false
+	if c.Val >= nHostile {
+		var donors []uint64
+		for _, g := range fs {
+			if g.Op == f.Op && g.Name == f.Name && g.Width == f.Width && g.Off != f.Off {
+				if x := getUint(input[g.Off:], g.Width); x != old {
+					donors = append(donors, x)
+				}
+			}
+		}
+		if k := c.Val - nHostile; k < len(donors) {
+			v, ok = donors[len(donors)-1-k], true // the largest-offset donors first
+		}
+	} else {
+		v, ok = sweepValue(c.Val, old, f.Width, uint64(len(input)), recOffsets)
+	}
 	if !ok || v == old {
 		return nil
 	}
 	putUint(input[f.Off:], f.Width, v)
 	what := fmt.Sprintf("%s: %s.%s (%s, in chunk=%v) at %d: %d -> %d", b.name, opName(f.Op), f.Name, f.Kind, f.InChunk, f.Off, old, v)
-	for _, e := range sweepEntries {
+	ran := 0
+	for ei, e := range sweepEntries {
+		// quick tier: three of the ten entry configurations per (field, value), chosen by a seed-dependent hash
+		if !pk.Thorough() && (wl.Hash(c)+uint64(ei)*0x9E3779B97F4A7C15+seedInt())%10 >= 3 {
+			continue
+		}
+		ran++
 		cc := C10Case{Entry: e.entry, Opts: e.opts, Aux: e.aux}
-		o := worker().Call(isolate.Req{Entry: uint16(e.entry), Opts: e.opts, Aux: e.aux, Input: input}, 10*time.Second, 60*time.Second)
+		o := worker().Call(isolate.Req{Entry: uint16(e.entry), Opts: e.opts, Aux: e.aux, Input: input}, 10*time.Second, 600*time.Second)
 		if err := judgeHostile("C10", fmt.Sprintf("%s on (%s)", entryLabel(&cc), what), o, allocCeiling(&cc, input)); err != nil {
 			return err
 		}
 	}
-	st.Case(wl.Hash(c), true, len(sweepEntries), "sweep:"+f.Kind)
+	st.Case(wl.Hash(c), true, ran, "sweep:"+f.Kind)
 	if st.WantSample() && c.Val%7 == 3 {
 		st.Sample(map[string]any{"sweep": what, "entries": len(sweepEntries)})
 	}
